@@ -469,6 +469,48 @@ class SFloat:
         raise FormatCut(self)
 
 
+class SDecG:
+    """text produced by '%.<P>g' % x for a symbolic non-negative double x: the decimal number with P significant digits
+    nearest to x (ties to even on the exact binary value, as C's printf does).  Only float() is offered on it
+    (correctly rounded, the documented contract of float(str)); forks on the decade of x."""
+
+    def __init__(self, x, prec):
+        self.x, self.prec = x, prec
+
+    def __symx_float__(self):
+        ex = core.cur()
+        n, d = self.x.exact()
+        if isinstance(n, int):
+            return float(('%%.%dg' % self.prec) % (n / d))
+        P = self.prec
+        lo, hi = max(n.lo, 0), n.hi
+
+        def decade(v):                   # floor(log10(v / d)) for a positive integer numerator v
+            k = len(str(v // d)) - 1 if v >= d else -1
+            while k >= 0 and 10 ** k * d > v:
+                k -= 1
+            return k
+        if lo == 0:
+            if n == 0:
+                return 0.0
+            lo = 1
+        kmin, kmax = (decade(lo) if lo >= d else 0), decade(hi)
+        if lo < d:
+            ex.cut('%g rendering of a value below 1 (not modelled)') if (n < d) else None
+        k = ex.choose('decade', list(range(max(kmin, 0), kmax + 1))) if kmax > max(kmin, 0) else max(kmin, 0)
+        ex.assume(s_and(n >= d * 10 ** k, n < d * 10 ** (k + 1)))
+        sh = P - 1 - k                    # N = rne(x * 10**sh) has P digits (or is 10**P after rounding up)
+        N = rne_div(n * 10 ** sh, d) if sh >= 0 else rne_div(n, d * 10 ** (-sh))
+        if sh >= 0:
+            return round_to_double(N, 10 ** sh, 0)
+        return round_to_double(N * 10 ** (-sh), 1, 0)
+
+    def _no(self, *a, **k):
+        raise EngineLimit("'%g' text of a symbolic float used other than through float()")
+    __eq__ = __lt__ = __add__ = __radd__ = __len__ = __iter__ = __getitem__ = _no
+    __hash__ = None
+
+
 COARSE_DIV = False
 
 
